@@ -99,7 +99,9 @@ func AFVarietyStream(seed int64) []byte {
 }
 
 // c19Streams: the standard streams plus one with adaptation fields of every kind.
-func c19Streams(seed int64) []*Stream {
+func c19Streams(seed int64) []*Stream { return c19StreamsT(seed, false) }
+
+func c19StreamsT(seed int64, thorough bool) []*Stream {
 	ss := StandardStreams(seed)
 	cc := uint8(0)
 	u := PESUnit(0x300, 0xe0, pesPayload(5, 300, seed), 9, false)
@@ -126,6 +128,9 @@ func c19Streams(seed int64) []*Stream {
 		// null packets: data bytes may have any value; counters consecutive so that the accumulator's
 		// continuity rule keeps them in one group (the counter of null packets is undefined in ISO)
 		lists = append(lists, []*ref.Pkt{null(0xff, 0), null(0x00, 1)})
+		if thorough { // 16 packets: 2^16 skip vectors
+			lists[3] = append(lists[3], Packetize(PESUnit(0x101, 0xc0, pesPayload(26, 40, seed), 6, true), nil, &ccs[3], false)...)
+		}
 		ss = append(ss, BuildStream("mixed-15", lists, roundRobin(lists), nil))
 	}
 	return ss
@@ -135,7 +140,7 @@ func checkC19(c *mc.Ctx) {
 	c.Ev.Level = "model_checking"
 	c.Ev.Rule = "for each stream of n packets all 2^n per-packet skip decisions plus structured predicates, through NextPacket and NextData, compared with the real Demuxer run on the physically filtered stream; predicate call log compared with the reference decoding of every packet; PacketsParser observer / replacer / failing-at-k for every k; distinct_nontrivial = distinct (stream, API, decision vector / parser mode) runs"
 	c.Ev.Assumptions = append(c.Ev.Assumptions, "per-packet decisions are implemented by a call counter inside the predicate (the predicate is consulted once per packet in stream order - itself checked)")
-	for _, st := range c19Streams(c.Seed) {
+	for _, st := range c19StreamsT(c.Seed, c.Thorough()) {
 		n := len(st.Pkts)
 		if n > 16 {
 			continue
